@@ -51,8 +51,20 @@ def configs(draw):
          # before test(): the root says eval but a mode-dependent child was switched back to training on its own
          "child_train_before_test": draw(st.booleans()),
          # the Trainer was compiled before, with other collaborators (an evaluator that the final compile() leaves out)
-         "recompile": draw(st.sampled_from([False, False, True]))}
+         "recompile": draw(st.sampled_from([False, False, True])),
+         # batches (x_a, x_b, labels) for a model of two inputs: everything before the last item is passed to the model
+         "two_inputs": draw(st.sampled_from([False, False, True]))}
+    if c["two_inputs"]:
+        c["loader_kind"] = "list_unequal" if c["loader_kind"] == "list_unequal" else "list_equal"
     return c
+
+
+def _all_submodules(m):
+    out = []
+    for ch in m.submodules():
+        out.append(ch)
+        out.extend(_all_submodules(ch))
+    return out
 
 
 def check_fit(c, rec):
@@ -73,14 +85,25 @@ def check_fit(c, rec):
     if task == "nll":
         layers.append(nn.LogSoftmax(1))
     model = nn.Sequential(*layers)
-    all_modules = [model] + list(model.submodules())
+    if c.get("two_inputs"):
+        class TwoIn(nn.Module):
+            def __init__(self, body):
+                super().__init__()
+                self.body = body
+
+            def forward(self, a, b):
+                return self.body(a + b)
+        model = TwoIn(model)
+        rec.tag("model_of_two_inputs")
+    all_modules = [model] + [m_ for m_ in _all_submodules(model)]
     loss_real = {"mse": nn.MSELoss, "bce_logits": nn.BCEWithLogitsLoss, "ce": nn.CrossEntropyLoss, "nll": nn.NLLLoss,
                  "categorical": nn.MSELoss}[task]()
     params = model.parameters()
     opt = sg.optim.SGD(params, lr=0.05, momentum=0.5) if c["opt"] == "sgd" else sg.optim.Adam(params, lr=0.01)
-    bns = [m for m in model.submodules() if isinstance(m, nn.BatchNorm1d)]
+    bns = [m for m in _all_submodules(model) if isinstance(m, nn.BatchNorm1d)]
 
     unequal = c.get("loader_kind") == "list_unequal"
+    as_list = unequal or c.get("loader_kind") == "list_equal"
     n_samples = {}
 
     def make_loader(nb):
@@ -103,10 +126,16 @@ def check_fit(c, rec):
         class T(data_mod.DataLoaderCallback):
             def __call__(self, loader, Xb, yb):
                 return Tensor(np.array(Xb)), Tensor(np.array(yb))
-        if unequal:
+        if as_list:
             ld, lo = [], 0
+            if not unequal:
+                sizes = [c["bs"]] * nb
             for sz in sizes:
-                ld.append((Tensor(X[lo:lo + sz].copy()), Tensor(y[lo:lo + sz].copy())))
+                if c.get("two_inputs"):
+                    xa = X[lo:lo + sz] * 0.25
+                    ld.append((Tensor(xa.copy()), Tensor((X[lo:lo + sz] - xa).copy()), Tensor(y[lo:lo + sz].copy())))
+                else:
+                    ld.append((Tensor(X[lo:lo + sz].copy()), Tensor(y[lo:lo + sz].copy())))
                 lo += sz
         else:
             ld = data_mod.DataLoader(X, y, c["bs"], transform=T())
@@ -148,10 +177,10 @@ def check_fit(c, rec):
 
     real_forward = model.forward
 
-    def forward_spy(x):
+    def forward_spy(*xs):
         ev = {"e": "forward", "modes": modes(), "tracking": tracking_on(), "snap": snapshot()}
         events.append(ev)
-        out = real_forward(x)
+        out = real_forward(*xs)
         ev["out"] = np.array(out.data)
         return out
     model.forward = forward_spy
@@ -355,7 +384,7 @@ def check_fit(c, rec):
     if c["test"]:
         if c.get("child_train_before_test"):
             model.eval()
-            for m_ in model.submodules():
+            for m_ in _all_submodules(model):
                 if isinstance(m_, (nn.BatchNorm1d, nn.Dropout)):
                     m_.train()
                     rec.tag("child_in_training_mode_before_test")
